@@ -46,6 +46,23 @@ func (w *World) absURI(real string) string {
 	})
 }
 
+// syncClock logs the time that passed since the last logged line as a Sleep step (caller holds emu).
+func (w *World) syncClock(upto int64) {
+	if upto <= w.lastNow || w.store == nil {
+		return
+	}
+	st, err := w.project()
+	if err != nil {
+		return
+	}
+	if w.pool != nil {
+		w.pool.project(st)
+	}
+	d := upto - w.lastNow
+	w.tr.emit(J{"op": "Sleep", "a": J{"op": "Sleep", "d": d}, "r": res(nil, nil), "t0": w.lastNow, "now": upto, "st": st})
+	w.lastNow = upto
+}
+
 func main() {
 	if len(os.Args) < 2 {
 		fatal("usage: vipsim <run|...> args")
@@ -93,17 +110,31 @@ func runScript(scriptPath, tracePath string) {
 	for k, op := range sc.Ops {
 		name := str(op, "op")
 		var r J
+		// operations that make agents call the pool take the turn per call (logPool); everything else takes it here
+		holdsTurn := !(name == "AgentStart" || name == "AgentUpdate" || name == "AgentStop" || name == "Sleep" || name == "Reset")
+		if holdsTurn {
+			w.turn.Lock()
+		}
+		t0 := w.clock.now()
 		switch {
 		case name == "Reset":
 			w.clock = Clock{epoch: time.Now()}
+			w.lastNow = 0
 			if err := w.reset(op); err != nil {
 				tr.close()
 				fatal("op %d reset: %v", k, err)
 			}
 			r = res(nil, nil)
+			t0 = 0
 		case name == "Sleep":
 			time.Sleep(time.Duration(num(op, "d")) * time.Second)
-			r = res(nil, nil)
+			// the passing of time is logged by syncClock (agents' loops may have logged part of it already)
+			w.turn.Lock() // wait for keep-alives that are in flight at this instant
+			w.emu.Lock()
+			w.syncClock(w.clock.now())
+			w.emu.Unlock()
+			w.turn.Unlock()
+			continue
 		case w.store == nil:
 			tr.close()
 			fatal("op %d before Reset", k)
@@ -128,7 +159,14 @@ func runScript(scriptPath, tracePath string) {
 		if w.pool != nil {
 			w.pool.project(st)
 		}
-		tr.emit(J{"op": name, "a": op, "r": r, "now": w.clock.now(), "st": st})
+		w.emu.Lock()
+		w.syncClock(t0)
+		tr.emit(J{"op": name, "a": op, "r": r, "t0": t0, "now": w.clock.now(), "st": st})
+		w.lastNow = w.clock.now()
+		w.emu.Unlock()
+		if holdsTurn {
+			w.turn.Unlock()
+		}
 	}
 	if w.pool != nil {
 		w.pool.shutdown()
